@@ -133,9 +133,9 @@ def check(case):
         c = crash_e or crash_e2
         return violation("endpoint run raises %s: %s while the local run succeeds\n%s" % (c.bucket, c.msg, c.tb[-1000:]), labels, nt)
     try:
-        ce = oracle.read_canon(text_e, inst_prop)
-        ce2 = oracle.read_canon(text_e2, inst_prop)
-        cl = oracle.read_canon(text_l, inst_prop)
+        ce, ce2, cl = oracle.read_all([text_e, text_e2, text_l], inst_prop)
+    except oracle.OneSided as e:
+        return violation(str(e), labels, nt)
     except oracle.shexc.ShExCError:
         return discard("unparsable-output")
     if any("__dup_labels__" in d for d in (ce, ce2, cl)):
